@@ -308,7 +308,7 @@ def _finish(mod, tier, seed, results, extra, extra_viol, errors, build_notes, t0
         replay_paths[sig] = path
         if n < 25:
             lines.append("VIOLATION property=%s replay=%s  # %s: %s (%d occurrence(s))" % (
-                pid, path, sig, v["msg"][:300], vcount[sig]))
+                pid, path, sig, " ".join(v["msg"][:300].split()), vcount[sig]))
 
     verdict = "violated" if new_viol else ("inconclusive" if (errors or missing) else "held")
     coverage = {
@@ -393,7 +393,7 @@ def _replay(mod, bins, run_dir, path):
             if sig in known:
                 print("KNOWN-FINDING: property=%s [%s] %s" % (mod.ID, sig, msg[:300]))
             else:
-                print("VIOLATION property=%s replay=%s  # %s: %s" % (mod.ID, path, sig, msg[:400]))
+                print("VIOLATION property=%s replay=%s  # %s: %s" % (mod.ID, path, sig, " ".join(msg[:400].split())))
                 rc = 1
         return rc
     print("%s: HELD on the replayed case" % mod.ID)
